@@ -56,6 +56,20 @@ Definition impl_ok (e : string * string * list string) : bool :=
 Definition provided_methods_ok : bool :=
   triples_eqb trait_defs expected_trait && forallb impl_ok trait_impl_methods.
 
+(* the streaming append of the four SIMD hashers is, token for token, the text of PortableHash::append — the text the translator
+   tie proves equal to the model (SRC_append); only the update / data_to_lanes it calls are the backend's own *)
+Definition append_body (ty : string) : option string := body_of impl_bodies ty "" "append".
+Definition append_text_shared : bool :=
+  match append_body "PortableHash" with
+  | Some b0 => forallb (fun ty => match append_body ty with Some b => String.eqb b b0 | None => false end)
+                       ["SseHash"; "AvxHash"; "NeonHash"; "WasmHash"]
+  | None => false
+  end.
+
+Theorem C05_append_text_shared : append_text_shared = true.
+Proof. vm_compute. reflexivity. Qed.
+
 Theorem C05_provided_methods : provided_methods_ok = true.
 Proof. vm_compute. reflexivity. Qed.
 Print Assumptions C05_provided_methods.
+Print Assumptions C05_append_text_shared.
